@@ -26,11 +26,12 @@ LEVEL_TEXT = (
     "every label set produced by ad_to_evol_map, split_ad_to_evol_map and their threshold products "
     "(all 16 nf_in x nf_out pairs, QCD and QED) is blown up with each member switched on alone and with "
     "all members different; the tensor is compared with the exact change of basis; by linearity in the "
-    "members this decides the statement for arbitrary member matrices of the sizes tried"
+    "members this decides the statement for arbitrary member matrices of the sizes tried; which input element "
+    "feeds which block of the evolution-basis operator is compared exactly with a typed table for both maps"
 )
 LEVEL_NOTE = (
     "trusts vf/ref/c31_bases.py (documented bases, self-checked) and the linearity of the blow-up in the "
-    "members (checked on the all-different fill); grid sizes 2 (quick) and 1,2,3 (thorough); "
+    "members (checked on the all-different fill); grid sizes 2 (+1 on the two maps' own label sets; quick) and 1,2,3 (thorough); "
     "float results compared to 1e-12 relative to the largest member entry"
 )
 FLOOR_NONTRIVIAL = 20
@@ -65,6 +66,90 @@ def _ome_members(ng, base=0):
         lab: OpMember(np.arange(ng * ng, dtype=float).reshape(ng, ng) + 7.0 * (k + 1) + base, np.zeros((ng, ng)))
         for k, lab in enumerate(labs)
     }
+
+
+def _expected_physical(nf, qed):
+    """member name -> anomalous-dimension sector label, or "identity" (typed: vf/ref/c31_bases.py sectors).
+
+    The block-diagonal evolution-basis operator: every active distribution pair of a sector evolves with the
+    kernel of that sector (singlet / valence blocks, T_k with ns+, V_k with ns-, V with nsV; unified: u/d families),
+    quarks heavier than nf do not evolve (identity on q+ and q-)."""
+    exp = {}
+    for lab, members in B.sectors(qed).items():
+        for a, b in members:
+            if B.is_active(a, nf, qed) and B.is_active(b, nf, qed):
+                exp[f"{a}.{b}"] = lab
+    for l in B.heavy_labels(nf):
+        exp[f"{l}.{l}"] = "identity"
+    return exp
+
+
+HPLUS, HMINUS = 90, 91  # pids of the matching h+ / h- members (eko.basis_rotation docstring)
+
+
+def _expected_matching(nf, qed):
+    """member name -> matrix-element label, or "identity"; nf = flavours below the threshold (typed table).
+
+    Light singlet block <- (S,g)x(S,g) elements, every light valence-like / non-singlet distribution <- the
+    non-singlet element (200,200), photon untouched, the quark that becomes active (h = nf+1): h+ <- S, g, h+ ;
+    S, g <- h+ ; h- <- h- ; quarks heavier than h untouched."""
+    exp = {"S.S": (100, 100), "S.g": (100, 21), "g.S": (21, 100), "g.g": (21, 21), "V.V": (200, 200)}
+    singlet_like = ("g", "ph", "S", "V", "Sdelta", "Vdelta")
+    for l in B.intrinsic_labels(nf, qed):
+        if l in singlet_like or l in B.heavy_labels(nf):
+            continue
+        exp[f"{l}.{l}"] = (200, 200)
+    if qed:
+        exp["Sdelta.Sdelta"] = (200, 200)
+        exp["Vdelta.Vdelta"] = (200, 200)
+        exp["ph.ph"] = "identity"
+    h = B.QUARK_OF_PID[nf + 1]
+    exp[f"{h}+.S"] = (HPLUS, 100)
+    exp[f"{h}+.g"] = (HPLUS, 21)
+    exp[f"{h}+.{h}+"] = (HPLUS, HPLUS)
+    exp[f"S.{h}+"] = (100, HPLUS)
+    exp[f"g.{h}+"] = (21, HPLUS)
+    exp[f"{h}-.{h}-"] = (HMINUS, HMINUS)
+    for l in B.heavy_labels(nf + 1):
+        exp[f"{l}.{l}"] = "identity"
+    return exp
+
+
+def _check_map(res, case, obj):
+    """Which input member feeds which evolution-basis block (exact comparison, matrices are small integers)."""
+    import numpy as np
+
+    qed, ng, src, nf = case["qed"], case["ng"], case["source"], case["nf"]
+    if src == "physical":
+        site, exp, inp = "ad_to_evol_map", _expected_physical(nf, qed), _ad_members(qed, ng)
+    else:
+        site, exp, inp = "split_ad_to_evol_map", _expected_matching(nf, qed), _ome_members(ng)
+    got = {str(k): np.asarray(v.value) for k, v in obj.op_members.items()}
+    miss, extra = sorted(set(exp) - set(got)), sorted(set(got) - set(exp))
+    if miss:
+        res.fail(f"{site}/qed={qed}/members-missing", f"{case}: the map has no member {miss}")
+    if extra:
+        res.fail(f"{site}/qed={qed}/members-unexpected", f"{case}: the map holds the members {extra}, which no block of the nf={nf} basis has")
+    n = 0
+    for name in sorted(set(exp) & set(got)):
+        lab = exp[name]
+        if lab == "identity":
+            want = np.eye(ng)
+        elif lab in inp:
+            want = np.asarray(inp[lab].value)
+        else:
+            res.fail(f"{site}/qed={qed}/input-label-missing", f"{case}: input members have no element {lab}")
+            continue
+        n += 1
+        if got[name].shape != want.shape or not np.array_equal(got[name], want):
+            feeds = [str(l) for l, m in inp.items() if np.array_equal(np.asarray(m.value), got[name])]
+            if np.array_equal(got[name], np.eye(ng)):
+                feeds.append("identity")
+            res.fail(
+                f"{site}/qed={qed}/member={name}",
+                f"{case}: block {name} holds the input element {feeds or got[name].tolist()}, expected {lab}",
+            )
+    return n
 
 
 def _build(case):
@@ -154,6 +239,17 @@ def _compare(res, sig, what, tensor, T, scale, order):
     return worst / scale
 
 
+def _zero_error(res, sig, what, err):
+    """All members carry an exactly vanishing error estimate: the blown-up error tensor vanishes as well
+    (whatever rule propagates the errors; nothing is demanded about non-zero errors)."""
+    import numpy as np
+
+    err = np.asarray(err)
+    if err.size and not np.all(err == 0.0):
+        o = np.unravel_index(int(np.abs(np.nan_to_num(err, nan=np.inf)).argmax()), err.shape)
+        res.fail(f"{sig}/error-tensor-nonzero", f"{what}: all member errors are 0 but the error tensor has {err[o]!r} at {tuple(int(x) for x in o)}")
+
+
 def _eval_tensor(case):
     import numpy as np
     from eko import basis_rotation as br
@@ -177,7 +273,9 @@ def _eval_tensor(case):
     # (1) the object as produced by the real maps, with its own member matrices (exact small integers
     #     for physical/matching; for chains the members went through float products and are skipped)
     chunk, nchunks = case.get("chunk", 0), case.get("nchunks", 1)
+    nmap = 0
     if src != "chain" and chunk == 0:
+        nmap = _check_map(res, case, obj)
         mem = {}
         for k, v in obj.op_members.items():
             t, s = str(k).split(".")
@@ -188,9 +286,10 @@ def _eval_tensor(case):
             res.fail(f"{sig}/label-outside-basis", f"{case}: {err}")
         else:
             try:
-                val, _ = obj.to_flavor_basis_tensor(qed)
+                val, err_t = obj.to_flavor_basis_tensor(qed)
                 scale = max(abs(float(x)) for M in mem.values() for r in M for x in r)
                 worst = max(worst, _compare(res, sig, f"{case} as built", np.asarray(val), T, scale, order))
+                _zero_error(res, sig, f"{case} as built", err_t)
                 nfill += 1
             except Exception as e:  # noqa
                 res.fail(f"{sig}/raises:{type(e).__name__}", f"{case} as built: {type(e).__name__}: {e}")
@@ -220,14 +319,15 @@ def _eval_tensor(case):
             10.0,
         )
         try:
-            val, _ = ob.to_flavor_basis_tensor(qed)
+            val, err_t = ob.to_flavor_basis_tensor(qed)
         except Exception as e:  # noqa
             res.fail(f"{sig}/raises:{type(e).__name__}", f"{what}: {type(e).__name__}: {e}")
             continue
         scale = max(abs(float(x)) for M in mats.values() for r in M for x in r)
         worst = max(worst, _compare(res, sig, what, np.asarray(val), T, scale, order))
+        _zero_error(res, sig, what, err_t)
         nfill += 1
-    res.info = {"max_rel_deviation": worst, "members": len(names), "fills": nfill}
+    res.info = {"max_rel_deviation": worst, "members": len(names), "fills": nfill, "map_entries": nmap}
     res.outcome = f"{src} qed={qed} nf_in={nfi} nf_out={nfo} members={len(names)} {'ok' if not res.fails else 'bad'}"
     return res
 
@@ -303,23 +403,36 @@ def run(ctx):
                     continue
                 for c in range(n):
                     cases.append({"kind": "tensor", **s, "qed": qed, "ng": ng, "chunk": c, "nchunks": n})
+        if not ctx.thorough():
+            # quick: 1-point grids (scalar members) on the label sets of the two maps: as built + all-different fill
+            for s in [{"source": "physical", "nf": nf} for nf in NFS] + [{"source": "matching", "nf": nf} for nf in (3, 4, 5)]:
+                cases.append({"kind": "tensor", **s, "qed": qed, "ng": 1, "chunk": 0, "nchunks": 1, "single": False})
     results = ctx.run_cases(cases, evaluate, chunksize=1)
     ctx.exhaustive = True
+    nmap = sum((r[1][3] or {}).get("map_entries", 0) for r in results)
     nfills = sum((r[1][3] or {}).get("fills", 0) for r in results)
-    ctx.extra.update(blow_ups_compared=int(nfills))
+    ctx.extra.update(blow_ups_compared=int(nfills), map_entries_compared=int(nmap))
     ctx.rule = (
         "label sets: ad_to_evol_map for nf 3-6, split_ad_to_evol_map for nf 3-5, and the products "
         "evolve.rotate.match...evolve for all 12 ordered pairs nf_in != nf_out (forward and backward), each for "
         "QCD and QED and grid sizes " + str(sizes) + "; on each label set every member is switched on alone "
         "(non-symmetric integer matrix) and once all members differ"
         + ("" if ctx.thorough() else " (quick: products over 2-3 thresholds only with the all-different fill)")
-        + "; plus the weight functions for all 14 "
+        + ("" if ctx.thorough() else "; quick: 1-point grids on the label sets of the two maps with the as-built and the all-different fill")
+        + "; for the objects returned by the two maps every block is compared exactly with the input element that "
+        "the typed block table (sector -> active distribution pairs; matching: 13 matrix elements -> blocks; identity "
+        "on untouched heavy quarks / photon) names, and the key set must equal the table's"
+        "; every blow-up is done with vanishing member errors and must return a vanishing error tensor"
+        "; plus the weight functions for all 14 "
         "labels x nf 3-6 x QCD/QED x normalize on/off; non-trivial = all"
     )
     ctx.assumptions += [
         "reference bases typed from doc/source/theory/FlavorSpace.rst (vf/ref/c31_bases.py); output weights = columns of the exact inverse",
         "linearity of the blow-up in the members (single-member fills decide arbitrary members); checked by the all-different fill",
         "nf_in, nf_out are those of the construction; labels absent from a set are zero blocks",
-        "only the value tensor is compared (the statement says nothing about the error tensor)",
+        "block table of the evolution-basis operator typed in this module / vf/ref/c31_bases.py: S,g (unified: g,ph,S,Sdelta) and V (V,Vdelta) blocks, "
+        "T_k <- ns+, V_k <- ns- (unified: u/d families), heavy q+- <- identity; matching: light non-singlet-like blocks <- (200,200), "
+        "h+ <-> S,g,h+ and h- <- h- for the quark that becomes active, photon and heavier quarks <- identity; the elements (200,h-),(h-,200) are unused",
+        "of the error tensor only 'zero member errors give a zero error tensor' is demanded (the statement says nothing about error propagation)",
         f"floats compared to {TOL} x largest member entry",
     ]
